@@ -18,22 +18,29 @@ Definition split_first (c : N) (s : str) : option (str * str) :=
 
 Definition c_slash := 47. Definition c_colon := 58. Definition c_at := 64.
 
-(* go-digest v1.0.0 Digest.Validate with sha256/sha384/sha512 registered *)
+(* go-digest v1.0.0 Digest.Validate: the algorithm must be one of the three the package knows
+   (sha256/sha384/sha512, alg_table) AND available, i.e. its hash implementation linked into the
+   binary (crypto.Hash.Available: go-digest's README asks callers to import crypto/sha256 and
+   crypto/sha512).  [avail] is that link-time fact; every theorem holds for every [avail]. *)
 Definition hexlower (c : N) : bool := ((48 <=? c) && (c <=? 57)) || ((97 <=? c) && (c <=? 102)).
 Definition alg_table : list (str * nat) :=
   [(b "sha256", 64%nat); (b "sha384", 96%nat); (b "sha512", 128%nat)].
+
+Definition valid_tag (s : str) : bool := matches tagRegexp s.
+Definition valid_repository (s : str) : bool := matches repositoryRegexp s.
+
+Section WithDigests.
+Variable avail : str -> bool.
+
 Definition valid_digest (s : str) : bool :=
   match split_first c_colon s with
   | None => false
   | Some (alg, enc) =>
       match find (fun p => str_eqb (fst p) alg) alg_table with
-      | Some (_, n) => Nat.eqb (length enc) n && forallb hexlower enc
+      | Some (_, n) => avail alg && Nat.eqb (length enc) n && forallb hexlower enc
       | None => false
       end
   end.
-
-Definition valid_tag (s : str) : bool := matches tagRegexp s.
-Definition valid_repository (s : str) : bool := matches repositoryRegexp s.
 
 Section WithRegistry.
   Variable valid_registry : str -> bool.
@@ -81,15 +88,20 @@ Section WithRegistry.
     | _ => if contains c_colon rf then valid_digest rf else valid_tag rf
     end.
 
-  (* Repository.ParseReference with base reference (breg, brepo) *)
-  Definition repo_parse (breg brepo : str) (s : str) : option reference :=
+  (* Repository.ParseReference with base reference (breg, brepo).  [strict] = the code after the
+     fix "rejects a malformed path in front of '@digest'": what precedes the '@' in the fallback
+     branch must not contain a slash.  [strict = false] is the code before that fix, kept for the
+     refuted theorem. *)
+  Definition repo_parse_gen (strict : bool) (breg brepo : str) (s : str) : option reference :=
     let res :=
       match parse s with
       | Some r =>
           if str_eqb (r_registry r) breg && str_eqb (r_repository r) brepo then Some r else None
       | None =>
           match split_first c_at s with
-          | Some (_, d) => if valid_digest d then Some (mkRef breg brepo d) else None
+          | Some (j, d) =>
+              if strict && contains c_slash j then None
+              else if valid_digest d then Some (mkRef breg brepo d) else None
           | None => if validate_reference s then Some (mkRef breg brepo s) else None
           end
       end in
@@ -97,7 +109,10 @@ Section WithRegistry.
     | Some r => match r_reference r with [] => None | _ => Some r end
     | None => None
     end.
+  Definition repo_parse := repo_parse_gen true.
+  Definition repo_parse_prefix := repo_parse_gen false.
 End WithRegistry.
+End WithDigests.
 
 (* URL builders of registry/remote/url.go, as byte strings *)
 Definition host_of (reg : str) : str :=
@@ -115,6 +130,49 @@ Definition url_taglist (plain : bool) (r : reference) : str :=
   url_repo_base plain r ++ b "/tags/list".
 Definition url_upload (plain : bool) (r : reference) : str :=
   url_repo_base plain r ++ b "/blobs/uploads/".
+Definition url_base (plain : bool) (r : reference) : str :=
+  scheme plain ++ b "://" ++ host_of (r_registry r) ++ b "/v2/".
+Definition url_catalog (plain : bool) (r : reference) : str :=
+  scheme plain ++ b "://" ++ host_of (r_registry r) ++ b "/v2/_catalog".
+
+(* Generic URL syntax (RFC 3986 section 3, what net/url implements):
+     scheme ":" "//" authority path-abempty [ "?" query ] [ "#" fragment ]
+   the authority ends at the first '/', '?' or '#'; the path at the first '?' or '#'.
+   Used to STATE where the parts of a reference end up in a built URL (theorem C20_url_exact) and,
+   extracted, compared with net/url's own parse of every URL of the differential run. *)
+Definition c_qm := 63. Definition c_hash := 35.
+Fixpoint take_until (stops : list N) (s : str) : str * str :=
+  match s with
+  | [] => ([], [])
+  | c :: t => if contains c stops then ([], s)
+              else let (a, r) := take_until stops t in (c :: a, r)
+  end.
+Record url_parts := mkParts { u_scheme : str; u_authority : str; u_path : str;
+                              u_query : option str; u_fragment : option str }.
+Definition url_split (u : str) : option url_parts :=
+  let (sch, r0) := take_until [c_colon] u in
+  match r0 with
+  | 58 :: 47 :: 47 :: r1 =>
+      let (auth, r2) := take_until [c_slash; c_qm; c_hash] r1 in
+      let (path, r3) := take_until [c_qm; c_hash] r2 in
+      let (q, r4) := match r3 with
+                     | 63 :: r => let (q, r') := take_until [c_hash] r in (Some q, r')
+                     | _ => (None, r3)
+                     end in
+      let f := match r4 with 35 :: r => Some r | _ => None end in
+      Some (mkParts sch auth path q f)
+  | _ => None
+  end.
+(* strings.Split(s, c) *)
+Fixpoint split_on (c : N) (s : str) : list str :=
+  match s with
+  | [] => [[]]
+  | x :: t => if x =? c then [] :: split_on c t
+              else match split_on c t with
+                   | h :: r => (x :: h) :: r
+                   | [] => [[x]]
+                   end
+  end.
 
 (* Conservative model of url.ParseRequestURI("dummy://"+reg) with Host == reg,
    used only by the correspondence check: Some true / Some false when the
@@ -147,22 +205,22 @@ Definition registry_verdict (reg : str) : option bool :=
 
 (* three-valued parse for the correspondence check *)
 Inductive verdict := VOk (r : reference) | VErr | VUnjudged.
-Definition parse_verdict (s : str) : verdict :=
+Definition parse_verdict (avail : str -> bool) (s : str) : verdict :=
   match split_first c_slash s with
   | None => VErr
   | Some (reg, _) =>
       match registry_verdict reg with
       | None => VUnjudged
-      | Some v => match parse (fun _ => v) s with Some r => VOk r | None => VErr end
+      | Some v => match parse avail (fun _ => v) s with Some r => VOk r | None => VErr end
       end
   end.
 
-Definition repo_parse_verdict (breg brepo s : str) : verdict :=
+Definition repo_parse_verdict (avail : str -> bool) (breg brepo s : str) : verdict :=
   match split_first c_slash s with
-  | None => match repo_parse (fun _ => false) breg brepo s with Some r => VOk r | None => VErr end
+  | None => match repo_parse avail (fun _ => false) breg brepo s with Some r => VOk r | None => VErr end
   | Some (reg, _) =>
       match registry_verdict reg with
       | None => VUnjudged
-      | Some v => match repo_parse (fun _ => v) breg brepo s with Some r => VOk r | None => VErr end
+      | Some v => match repo_parse avail (fun _ => v) breg brepo s with Some r => VOk r | None => VErr end
       end
   end.
